@@ -182,16 +182,24 @@ class CQN(RLAlgorithm):
         """
         obs = self.preprocess_observation(obs)
 
+        # NOTE: For Dict/Tuple observations len(obs) is the number of sub-spaces, not the batch size
+        if isinstance(obs, dict):
+            batch_size = next(iter(obs.values())).size(0)
+        elif isinstance(obs, tuple):
+            batch_size = obs[0].size(0)
+        else:
+            batch_size = obs.size(0)
+
         # epsilon-greedy
         if random.random() < epsilon:
             if action_mask is None:
-                action = np.random.randint(0, self.action_dim, size=len(obs))
+                action = np.random.randint(0, self.action_dim, size=batch_size)
             else:
                 # NOTE: Masked entries must lose against a legal action that draws exactly zero
                 action = np.argmax(
                     np.where(
                         np.asarray(action_mask).astype(bool),
-                        np.random.uniform(0, 1, (len(obs), self.action_dim)),
+                        np.random.uniform(0, 1, (batch_size, self.action_dim)),
                         -1.0,
                     ),
                     axis=1,
